@@ -4,7 +4,7 @@ usage: seed_matrix.py [seed-name-prefix ...]   (sequential: each run patches /re
 import json, os, subprocess, sys, re
 ROOT = '/verif/seeded'
 RELATED = {'C01': ['C02', 'C07'], 'C02': ['C01', 'C09', 'C08'], 'C03': ['C12', 'C10'], 'C04': ['C05'], 'C05': ['C04'], 'C06': [], 'C07': ['C01', 'C04'],
-           'C08': ['C01', 'C02', 'C09'], 'C09': ['C02', 'C08'], 'C10': ['C03', 'C04'], 'C11': ['C01', 'C02'], 'C12': ['C03'], 'C15': [], 'C17': [], 'C18': ['C20'], 'C19': [], 'C20': []}
+           'C08': ['C01', 'C02', 'C09'], 'C09': ['C02', 'C08'], 'C10': ['C03', 'C04'], 'C11': ['C01', 'C02'], 'C12': ['C03'], 'C15': [], 'C16': [], 'C17': [], 'C18': ['C20'], 'C19': [], 'C20': []}
 res_file = os.path.join(ROOT, 'RESULTS.json')
 res = json.load(open(res_file)) if os.path.exists(res_file) else {}
 sel = sys.argv[1:]
